@@ -37,7 +37,7 @@ class Ty:
         return hash((self.k, self.a))
 
 
-_PRIM = {"int", "bool", "U", "str", "none", "func", "any"}
+_PRIM = {"int", "bool", "U", "str", "none", "func", "any", "map"}
 
 
 def parse_ty(s):
@@ -215,6 +215,27 @@ class VFunc(V):
         return "VFunc(%s,%s)" % (self.kind, {k: v for k, v in self.__dict__.items() if k not in ("kind", "env", "node")})
 
 
+class VMap(V):
+    """A symbolic two-level string-keyed record map (Format.spec): map[row][field].  One array per field, indexed by the
+    row key (a string term); presence tracked per row and per field."""
+
+    FIELDS = {}      # map name -> {field: "int"|"str"}
+
+    def __init__(self, name):
+        self.name = name
+
+
+class VRow(V):
+    def __init__(self, m, key):
+        self.m = m
+        self.key = key      # z3 term of StrSort
+
+
+class VKeys(V):
+    def __init__(self, of):
+        self.of = of        # VMap or VRow
+
+
 class VDict(V):
     """Concrete-keyed dictionary (for **kwargs and small literal dicts)."""
 
@@ -253,7 +274,7 @@ def comp_sorts(ty):
         return [USort]
     if k == "str":
         return [StrSort]
-    if k == "none":
+    if k in ("none", "map"):
         return []
     if k == "opt":
         return [B] + comp_sorts(ty.a[0])
@@ -395,6 +416,8 @@ def fits(v, ty):
         return isinstance(v, VIter)
     if k == "func":
         return isinstance(v, VFunc)
+    if k == "map":
+        return isinstance(v, VMap)
     return False
 
 
